@@ -84,7 +84,7 @@ def main():
         for p in placed:
             os.remove(p)
         t0 = time.time()
-        r = sh(["go", "test", "-vet=off", "-count=1"] + pkgs, cwd=wt, env=ENV)
+        r = sh(["go", "test", "-vet=off", "-count=1", "-timeout", "180s"] + pkgs, cwd=wt, env=ENV)
         meta["existing_tests_with_change"] = "pass" if r.returncode == 0 else "FAIL: " + r.stdout[-400:]
         meta["ran"].append("go test -vet=off -count=1 %s with the change: rc=%d (%.0fs)" % (" ".join(pkgs), r.returncode, time.time() - t0))
         t0 = time.time()
